@@ -1,1 +1,301 @@
-/-! # C10 — property theorems (stub: not built yet) -/
+import PymocaVerif.Lemmas.Classify
+/-!
+# C10 — the generated CasADi model classifies every variable exactly once
+
+Property theorems only (definitions of the specification predicates `UnderDer`,
+`ChildRefUnderDer` and helper lemmas live in `Lemmas/Classify.lean`).  All statements are about
+the executable model `Model/Classify.lean` for *arbitrary* symbol tables and AST trees.
+-/
+namespace PymocaVerif.Classify
+
+/-- The category lists (delay inputs set aside), in the order constants, string constants,
+    parameters, string parameters, inputs, states, algebraic states. -/
+def Lists.categories (l : Lists) (ndelay : Nat) : List String :=
+  l.constants ++ l.stringConstants ++ (l.parameters ++ l.stringParameters) ++ l.inputs.drop ndelay ++
+    l.states ++ l.algStates
+
+/-- **der_found_anywhere.** The counter-driven `StateAnnotator` marks exactly the symbols that
+    are referenced below a `der(...)` at any nesting depth, anywhere in the class (equations,
+    initial equations, bindings, component paths, indices): the symbols it returns are the
+    input symbols with `"state"` appended to those in `M`, and `M` is characterised
+    structurally by `UnderDer`. -/
+theorem der_found_anywhere (syms syms' : List Sym) (t : Node) (h : annotate syms t = some syms') :
+    ∃ M : List String, syms' = syms.map (annotateSym M) ∧
+      ∀ x, x ∈ M ↔ (x ∈ syms.map (·.name) ∧ UnderDer false t x) := by
+  rw [annotate_eq] at h
+  by_cases hb : bad false t = true
+  · simp [hb] at h
+  · simp only [hb, Bool.false_eq_true, if_false, Option.some.injEq] at h
+    exact ⟨_, h.symm, fun x => mem_refs_iff _ false t x⟩
+
+example : annotate [⟨"x", [], "Real", 0, []⟩, ⟨"y", ["output"], "Real", 1, []⟩]
+    (.mk "Equation" "" false
+      [.mk "Expression" "+" false [.mk "Expression" "der" false [.mk "ComponentRef" "x" false []],
+                                  .mk "ComponentRef" "y" false []]])
+    = some [⟨"x", ["state"], "Real", 0, []⟩, ⟨"y", ["output"], "Real", 1, []⟩] := by decide
+
+/-- Annotation changes nothing but the `"state"` prefix: a symbol carries `"state"` afterwards
+    iff it did before or is referenced under a `der`; every other prefix, the name, type, order
+    and dimensions are untouched. -/
+theorem annotate_state_iff (M : List String) (names : List String) (t : Node)
+    (hM : ∀ x, x ∈ M ↔ (x ∈ names ∧ UnderDer false t x)) (s : Sym) (hs : s.name ∈ names) :
+    ("state" ∈ (annotateSym M s).prefixes ↔ ("state" ∈ s.prefixes ∨ UnderDer false t s.name)) ∧
+    (∀ p, p ≠ "state" → (p ∈ (annotateSym M s).prefixes ↔ p ∈ s.prefixes)) ∧
+    (annotateSym M s).name = s.name ∧ (annotateSym M s).type = s.type ∧
+    (annotateSym M s).order = s.order ∧ (annotateSym M s).dims = s.dims := by
+  unfold annotateSym
+  by_cases hc : s.name ∈ M ∧ "state" ∉ s.prefixes
+  · rw [if_pos hc]
+    have hu := ((hM _).mp hc.1).2
+    refine ⟨by simp [hu], ?_, rfl, rfl, rfl, rfl⟩
+    intro p hp; simp [hp]
+  · rw [if_neg hc]
+    refine ⟨?_, fun _ _ => Iff.rfl, rfl, rfl, rfl, rfl⟩
+    constructor
+    · exact Or.inl
+    · rintro (h | h)
+      · exact h
+      · have hm : s.name ∈ M := (hM _).mpr ⟨hs, h⟩
+        by_cases hp : "state" ∈ s.prefixes
+        · exact hp
+        · exact absurd ⟨hm, hp⟩ hc
+
+example : UnderDer false
+    (.mk "Expression" "der" false [.mk "Expression" "*" false [.mk "ComponentRef" "x" false []]]) "x" :=
+  .child (List.mem_singleton.mpr rfl) (.child (List.mem_singleton.mpr rfl) (.here rfl rfl rfl))
+
+/-- `annotate_states` raises (AssertionError) exactly when a reference with a child part occurs
+    below a `der`. -/
+theorem annotate_fails_iff (syms : List Sym) (t : Node) :
+    annotate syms t = none ↔ ChildRefUnderDer false t := by
+  rw [annotate_eq, ← bad_iff]
+  by_cases hb : bad false t = true <;> simp [hb]
+
+example : ChildRefUnderDer false
+    (.mk "Expression" "der" false [.mk "ComponentRef" "a" true []]) :=
+  .child (List.mem_singleton.mpr rfl) (.here rfl rfl rfl)
+
+/-- **partition.** The delay inputs come first in `inputs`; the seven category lists together
+    are a permutation of the names of the non-empty symbols: every flat elementary variable is
+    in the lists exactly as often as it is declared. -/
+theorem partition (nd : Nat) (syms : List Sym) (l : Lists) (h : exitClass nd syms = some l) :
+    l.inputs.take nd = (List.range nd).map delayName ∧
+    (l.categories nd).Perm (names (syms.filter (fun s => !s.isEmpty))) := by
+  obtain ⟨_, rfl⟩ := exitClass_some h
+  constructor
+  · simp [listsOf]
+  · have h1 := (cats_perm (sortSyms syms)).map (·.name)
+    have h2 := ((sortSyms_perm syms).filter (fun s => !s.isEmpty)).map (·.name)
+    have hd : ((List.range nd).map delayName ++ names (pick (sortSyms syms) .input)).drop nd
+        = names (pick (sortSyms syms) .input) := by
+      rw [List.drop_append_of_le_length (by simp)]; simp
+    refine List.Perm.trans ?_ h2
+    simpa [Lists.categories, listsOf, names, hd] using h1
+
+/-- **exactly one category.** With distinct symbol names (they are dictionary keys) no name
+    occurs twice in the category lists: each variable is in exactly one list, exactly once. -/
+theorem exactly_one (nd : Nat) (syms : List Sym) (l : Lists) (h : exitClass nd syms = some l)
+    (hn : (names syms).Nodup) : (l.categories nd).Nodup := by
+  have hp := (partition nd syms l h).2
+  rw [hp.nodup_iff]
+  exact List.Nodup.sublist (List.Sublist.map _ List.filter_sublist) hn
+
+example : ∃ l, exitClass 0 [⟨"p", ["parameter", "input"], "Real", 0, []⟩, ⟨"x", ["state"], "Real", 1, []⟩,
+      ⟨"e", [], "Real", 2, [0]⟩] = some l ∧ l.categories 0 = ["p", "x"] :=
+  ⟨_, rfl, by decide⟩
+
+/-- **precedence.** Membership in each list is decided by the first matching test of
+    `constant`, `parameter`, `input`, `state` (else algebraic), String-typed constants and
+    parameters going to the string lists; only non-empty symbols are listed. -/
+theorem precedence (nd : Nat) (syms : List Sym) (l : Lists) (h : exitClass nd syms = some l) (n : String) :
+    (n ∈ l.constants ↔ ∃ s ∈ syms, s.name = n ∧ s.isEmpty = false ∧ "constant" ∈ s.prefixes ∧ s.isString = false) ∧
+    (n ∈ l.stringConstants ↔ ∃ s ∈ syms, s.name = n ∧ s.isEmpty = false ∧ "constant" ∈ s.prefixes ∧ s.isString = true) ∧
+    (n ∈ l.parameters ↔ ∃ s ∈ syms, s.name = n ∧ s.isEmpty = false ∧ "constant" ∉ s.prefixes ∧
+        "parameter" ∈ s.prefixes ∧ s.isString = false) ∧
+    (n ∈ l.stringParameters ↔ ∃ s ∈ syms, s.name = n ∧ s.isEmpty = false ∧ "constant" ∉ s.prefixes ∧
+        "parameter" ∈ s.prefixes ∧ s.isString = true) ∧
+    (n ∈ l.inputs.drop nd ↔ ∃ s ∈ syms, s.name = n ∧ s.isEmpty = false ∧ "constant" ∉ s.prefixes ∧
+        "parameter" ∉ s.prefixes ∧ "input" ∈ s.prefixes) ∧
+    (n ∈ l.states ↔ ∃ s ∈ syms, s.name = n ∧ s.isEmpty = false ∧ "constant" ∉ s.prefixes ∧
+        "parameter" ∉ s.prefixes ∧ "input" ∉ s.prefixes ∧ "state" ∈ s.prefixes) ∧
+    (n ∈ l.algStates ↔ ∃ s ∈ syms, s.name = n ∧ s.isEmpty = false ∧ "constant" ∉ s.prefixes ∧
+        "parameter" ∉ s.prefixes ∧ "input" ∉ s.prefixes ∧ "state" ∉ s.prefixes) := by
+  obtain ⟨_, rfl⟩ := exitClass_some h
+  have hm : ∀ s, s ∈ sortSyms syms ↔ s ∈ syms := fun s => (sortSyms_perm syms).mem_iff
+  have hd : ((List.range nd).map delayName ++ names (pick (sortSyms syms) .input)).drop nd
+      = names (pick (sortSyms syms) .input) := by
+    rw [List.drop_append_of_le_length (by simp)]; simp
+  have hc := fun (s : Sym) => catOf_cases s.prefixes
+  simp only [listsOf, hd, names, List.mem_map, List.mem_filter, mem_pick_iff, hm, Sym.cat,
+    Bool.not_eq_true']
+  refine ⟨?_, ?_, ?_, ?_, ?_, ?_, ?_⟩
+  · constructor
+    · rintro ⟨s, ⟨⟨h1, h2, h3⟩, h4⟩, rfl⟩; exact ⟨s, h1, rfl, h3, (hc s).1.mp h2, h4⟩
+    · rintro ⟨s, h1, rfl, h3, h2, h4⟩; exact ⟨s, ⟨⟨h1, (hc s).1.mpr h2, h3⟩, h4⟩, rfl⟩
+  · constructor
+    · rintro ⟨s, ⟨⟨h1, h2, h3⟩, h4⟩, rfl⟩; exact ⟨s, h1, rfl, h3, (hc s).1.mp h2, h4⟩
+    · rintro ⟨s, h1, rfl, h3, h2, h4⟩; exact ⟨s, ⟨⟨h1, (hc s).1.mpr h2, h3⟩, h4⟩, rfl⟩
+  · constructor
+    · rintro ⟨s, ⟨⟨h1, h2, h3⟩, h4⟩, rfl⟩
+      have := (hc s).2.1.mp h2; exact ⟨s, h1, rfl, h3, this.1, this.2, h4⟩
+    · rintro ⟨s, h1, rfl, h3, h2, h2', h4⟩; exact ⟨s, ⟨⟨h1, (hc s).2.1.mpr ⟨h2, h2'⟩, h3⟩, h4⟩, rfl⟩
+  · constructor
+    · rintro ⟨s, ⟨⟨h1, h2, h3⟩, h4⟩, rfl⟩
+      have := (hc s).2.1.mp h2; exact ⟨s, h1, rfl, h3, this.1, this.2, h4⟩
+    · rintro ⟨s, h1, rfl, h3, h2, h2', h4⟩; exact ⟨s, ⟨⟨h1, (hc s).2.1.mpr ⟨h2, h2'⟩, h3⟩, h4⟩, rfl⟩
+  · constructor
+    · rintro ⟨s, ⟨h1, h2, h3⟩, rfl⟩
+      have := (hc s).2.2.1.mp h2; exact ⟨s, h1, rfl, h3, this⟩
+    · rintro ⟨s, h1, rfl, h3, h2⟩; exact ⟨s, ⟨h1, (hc s).2.2.1.mpr h2, h3⟩, rfl⟩
+  · constructor
+    · rintro ⟨s, ⟨h1, h2, h3⟩, rfl⟩
+      have := (hc s).2.2.2.1.mp h2; exact ⟨s, h1, rfl, h3, this⟩
+    · rintro ⟨s, h1, rfl, h3, h2⟩; exact ⟨s, ⟨h1, (hc s).2.2.2.1.mpr h2, h3⟩, rfl⟩
+  · constructor
+    · rintro ⟨s, ⟨h1, h2, h3⟩, rfl⟩
+      have := (hc s).2.2.2.2.mp h2; exact ⟨s, h1, rfl, h3, this⟩
+    · rintro ⟨s, h1, rfl, h3, h2⟩; exact ⟨s, ⟨h1, (hc s).2.2.2.2.mpr h2, h3⟩, rfl⟩
+
+example : ∃ l, exitClass 0 [⟨"u", ["input", "state"], "Real", 0, []⟩, ⟨"c", ["parameter", "constant"], "String", 1, []⟩]
+    = some l ∧ "u" ∈ l.inputs ∧ "c" ∈ l.stringConstants := ⟨_, rfl, by decide, by decide⟩
+
+/-- **order_preserved.** Every list is a subsequence of the names of the symbols sorted by
+    declaration order; that sorted list is ordered, is a permutation of the symbols, and the
+    sort is stable (two symbols already in order keep their relative position). -/
+theorem order_preserved (nd : Nat) (syms : List Sym) (l : Lists) (h : exitClass nd syms = some l) :
+    l.constants.Sublist (names (sortSyms syms)) ∧ l.stringConstants.Sublist (names (sortSyms syms)) ∧
+    l.parameters.Sublist (names (sortSyms syms)) ∧ l.stringParameters.Sublist (names (sortSyms syms)) ∧
+    (l.inputs.drop nd).Sublist (names (sortSyms syms)) ∧ l.states.Sublist (names (sortSyms syms)) ∧
+    l.algStates.Sublist (names (sortSyms syms)) ∧
+    (sortSyms syms).Pairwise (fun a b => a.order ≤ b.order) ∧ (sortSyms syms).Perm syms ∧
+    (∀ a b, a.order ≤ b.order → [a, b].Sublist syms → [a, b].Sublist (sortSyms syms)) := by
+  obtain ⟨_, rfl⟩ := exitClass_some h
+  have hd : ((List.range nd).map delayName ++ names (pick (sortSyms syms) .input)).drop nd
+      = names (pick (sortSyms syms) .input) := by
+    rw [List.drop_append_of_le_length (by simp)]; simp
+  have hp := fun c => pick_sublist (sortSyms syms) c
+  refine ⟨?_, ?_, ?_, ?_, ?_, ?_, ?_, sortSyms_sorted syms, sortSyms_perm syms, ?_⟩
+  · exact List.Sublist.map _ (List.filter_sublist.trans (hp _))
+  · exact List.Sublist.map _ (List.filter_sublist.trans (hp _))
+  · exact List.Sublist.map _ (List.filter_sublist.trans (hp _))
+  · exact List.Sublist.map _ (List.filter_sublist.trans (hp _))
+  · simp only [listsOf, hd]; exact List.Sublist.map _ (hp _)
+  · exact List.Sublist.map _ (hp _)
+  · exact List.Sublist.map _ (hp _)
+  · intro a b hab hs
+    exact List.pair_sublist_mergeSort le_trans' le_total' (by simpa using hab) hs
+
+example : names (sortSyms [⟨"b", [], "Real", 2, []⟩, ⟨"a", [], "Real", 1, []⟩, ⟨"b2", [], "Real", 2, []⟩])
+    = ["a", "b", "b2"] := by decide
+
+/-- **one_derivative_per_state.** `der_states` is `states` with every name wrapped in
+    `der(...)`: same length, same order, and different states have different derivative
+    variables. -/
+theorem one_derivative_per_state (nd : Nat) (syms : List Sym) (l : Lists) (h : exitClass nd syms = some l) :
+    l.derStates = l.states.map derName ∧ l.derStates.length = l.states.length ∧
+    Function.Injective derName := by
+  obtain ⟨_, rfl⟩ := exitClass_some h
+  exact ⟨rfl, by simp [listsOf], derName_injective⟩
+
+example : ∃ l, exitClass 0 [⟨"x", ["state"], "Real", 0, []⟩, ⟨"a.y", ["output", "state"], "Real", 1, [2]⟩] = some l ∧
+    l.derStates = ["der(x)", "der(a.y)"] := ⟨_, rfl, by decide⟩
+
+/-- **outputs_exact.** `outputs` names exactly the non-empty output-prefixed symbols classified
+    as state or algebraic, states first, each group in declaration order. -/
+theorem outputs_exact (nd : Nat) (syms : List Sym) (l : Lists) (h : exitClass nd syms = some l) (n : String) :
+    (n ∈ l.outputs ↔ ∃ s ∈ syms, s.name = n ∧ s.isEmpty = false ∧ "output" ∈ s.prefixes ∧
+        (s.cat = .state ∨ s.cat = .alg)) ∧
+    l.outputs.Sublist (l.states ++ l.algStates) := by
+  obtain ⟨_, rfl⟩ := exitClass_some h
+  have hm : ∀ s, s ∈ sortSyms syms ↔ s ∈ syms := fun s => (sortSyms_perm syms).mem_iff
+  constructor
+  · simp only [listsOf, names, outputSyms, List.mem_map, List.mem_filter, List.mem_append, mem_pick_iff, hm,
+      decide_eq_true_eq]
+    constructor
+    · rintro ⟨s, ⟨h1 | h1, h2⟩, rfl⟩
+      · exact ⟨s, h1.1, rfl, h1.2.2, h2, Or.inl h1.2.1⟩
+      · exact ⟨s, h1.1, rfl, h1.2.2, h2, Or.inr h1.2.1⟩
+    · rintro ⟨s, h1, rfl, h3, h2, h4 | h4⟩
+      · exact ⟨s, ⟨Or.inl ⟨h1, h4, h3⟩, h2⟩, rfl⟩
+      · exact ⟨s, ⟨Or.inr ⟨h1, h4, h3⟩, h2⟩, rfl⟩
+  · simp only [listsOf, names, outputSyms, ← List.map_append]
+    exact List.Sublist.map _ List.filter_sublist
+
+example : ∃ l, exitClass 0 [⟨"y", ["output"], "Real", 0, []⟩, ⟨"x", ["output", "state"], "Real", 1, []⟩,
+      ⟨"p", ["parameter", "output"], "Real", 2, []⟩] = some l ∧ l.outputs = ["x", "y"] := ⟨_, rfl, by decide⟩
+
+/-- The class exit raises (AttributeError) exactly when a non-empty String-typed symbol that is
+    classified as state or algebraic carries the `output` prefix (open finding C10-F1). -/
+theorem attribute_error_iff (nd : Nat) (syms : List Sym) :
+    exitClass nd syms = none ↔ ∃ s ∈ syms, s.isString = true ∧ s.isEmpty = false ∧ "output" ∈ s.prefixes ∧
+        (s.cat = .state ∨ s.cat = .alg) := by
+  have hm : ∀ s, s ∈ sortSyms syms ↔ s ∈ syms := fun s => (sortSyms_perm syms).mem_iff
+  unfold exitClass
+  by_cases hc : (outputSyms (sortSyms syms)).any (·.isString) = true
+  · simp only [hc, if_true, true_iff]
+    rw [List.any_eq_true] at hc
+    obtain ⟨s, hs, hstr⟩ := hc
+    simp only [outputSyms, List.mem_filter, List.mem_append, mem_pick_iff, hm, decide_eq_true_eq] at hs
+    rcases hs with ⟨h1 | h1, h2⟩
+    · exact ⟨s, h1.1, hstr, h1.2.2, h2, Or.inl h1.2.1⟩
+    · exact ⟨s, h1.1, hstr, h1.2.2, h2, Or.inr h1.2.1⟩
+  · simp only [hc, Bool.false_eq_true, if_false, reduceCtorEq, false_iff]
+    rintro ⟨s, h1, hstr, h3, h2, h4⟩
+    apply hc
+    rw [List.any_eq_true]
+    refine ⟨s, ?_, hstr⟩
+    simp only [outputSyms, List.mem_filter, List.mem_append, mem_pick_iff, hm, decide_eq_true_eq]
+    rcases h4 with h4 | h4
+    · exact ⟨Or.inl ⟨h1, h4, h3⟩, h2⟩
+    · exact ⟨Or.inr ⟨h1, h4, h3⟩, h2⟩
+
+example : exitClass 0 [⟨"s", ["output"], "String", 0, []⟩] = none := by decide
+
+/-- **state iff differentiated (end to end).** In the model the whole pipeline produces, a name
+    is a state iff it belongs to a non-empty symbol that is neither constant, parameter nor
+    input and that either was declared with `"state"` or is referenced below a `der` somewhere
+    in the class; and `inputs` starts with one fresh symbol per `delay` call. -/
+theorem states_iff_differentiated (syms : List Sym) (t : Node) (l : Lists)
+    (h : classify syms t = .ok l) (n : String) :
+    (n ∈ l.states ↔ ∃ s ∈ syms, s.name = n ∧ s.isEmpty = false ∧ "constant" ∉ s.prefixes ∧
+        "parameter" ∉ s.prefixes ∧ "input" ∉ s.prefixes ∧
+        ("state" ∈ s.prefixes ∨ UnderDer false t s.name)) ∧
+    l.inputs.take (countDelays t) = (List.range (countDelays t)).map delayName := by
+  unfold classify at h
+  cases ha : annotate syms t with
+  | none => simp [ha] at h
+  | some syms' =>
+    simp only [ha] at h
+    cases he : exitClass (countDelays t) syms' with
+    | none => simp [he] at h
+    | some l' =>
+      simp only [he, Outcome.ok.injEq] at h
+      subst h
+      obtain ⟨M, rfl, hM⟩ := der_found_anywhere syms syms' t ha
+      refine ⟨?_, (partition _ _ _ he).1⟩
+      rw [(precedence _ _ _ he n).2.2.2.2.2.1]
+      constructor
+      · rintro ⟨s', hs', rfl, h1, h2, h3, h4, h5⟩
+        obtain ⟨s, hs, rfl⟩ := List.mem_map.mp hs'
+        have hsn : s.name ∈ syms.map (·.name) := List.mem_map.mpr ⟨s, hs, rfl⟩
+        obtain ⟨a1, a2, a3, _, _, a6⟩ := annotate_state_iff M _ t hM s hsn
+        refine ⟨s, hs, a3.symm, ?_, ?_, ?_, ?_, a1.mp h5⟩
+        · simpa [Sym.isEmpty, a6] using h1
+        · exact fun hh => h2 ((a2 _ (by decide)).mpr hh)
+        · exact fun hh => h3 ((a2 _ (by decide)).mpr hh)
+        · exact fun hh => h4 ((a2 _ (by decide)).mpr hh)
+      · rintro ⟨s, hs, rfl, h1, h2, h3, h4, h5⟩
+        have hsn : s.name ∈ syms.map (·.name) := List.mem_map.mpr ⟨s, hs, rfl⟩
+        obtain ⟨a1, a2, a3, _, _, a6⟩ := annotate_state_iff M _ t hM s hsn
+        refine ⟨annotateSym M s, List.mem_map.mpr ⟨s, hs, rfl⟩, a3, ?_, ?_, ?_, ?_, a1.mpr h5⟩
+        · simpa [Sym.isEmpty, a6] using h1
+        · exact fun hh => h2 ((a2 _ (by decide)).mp hh)
+        · exact fun hh => h3 ((a2 _ (by decide)).mp hh)
+        · exact fun hh => h4 ((a2 _ (by decide)).mp hh)
+
+example : ∃ l, classify [⟨"x", [], "Real", 0, []⟩, ⟨"u", ["input"], "Real", 1, []⟩]
+    (.mk "Equation" "" false [.mk "Expression" "der" false
+        [.mk "Expression" "*" false [.mk "ComponentRef" "x" false [], .mk "ComponentRef" "u" false []]]]) = .ok l ∧
+    l.states = ["x"] ∧ l.inputs = ["u"] := ⟨_, rfl, by decide, by decide⟩
+
+end PymocaVerif.Classify
